@@ -5,7 +5,8 @@ reader checks the title fatally before using a property; R3 short reads: the FIL
 count fatally, the C++ wrapper delegates to istream::read and nothing reachable from the import API
 clears stream state or swallows exceptions; R4 a producer that can return "no object" is tested before
 use by every consumer; R5 every dimension read from the stream reaches a field or is fatally validated;
-R6 property parsers throw on missing/malformed text.
+R6 property parsers throw on missing/malformed text; R7 the text-section parser returns a section only under an equality
+test of the whole line with the END line built from the title of the BEGIN line.
 Not decided: the exhaustive statement over every byte offset (runtime enumeration).
 """
 import re
@@ -49,6 +50,7 @@ def run(chk):
         vn = v.name
         chk.analysed["variants"] = chk.analysed.get("variants", 0) + 1
         printer, parser = ioseq.find_primitives(v)
+        check_section_end(chk, v, parser)
         nr = v.noreturn
         # ---------------- R1 tags
         readers = [f for f in v.defined() if not f.get("record") and direct_stream_calls(f, "fread")]
@@ -77,6 +79,11 @@ def run(chk):
                     if c[0] == "op" and c[1] in ("!=", "==") and (c[2] == cell or c[3] == cell):
                         other = c[3] if c[2] == cell else c[2]
                         fatal = (x.get("then_status") == "exit") if c[1] == "!=" else (x.get("else_status") == "exit")
+                        if other[0] == "fld":
+                            from rules.c05 import const_member
+                            cmv = const_member(v, other)
+                            if cmv is not None:
+                                other = ("int", cmv)          # a const data member with a constant in-class initialiser
                         if other[0] != "int":
                             detail = "tag compared with %s, not a constant" % sym.show(other)
                         elif not fatal:
@@ -285,3 +292,103 @@ def _null_test(cond, obj):
             if r is True:
                 return True
     return None
+
+
+# ------------------------------------------------------------------------------ R7: a section ends only at ITS end line
+def _refs(n):
+    return {x.get("id") for x in walk(n) if isinstance(x, dict) and x.get("k") == "ref" and x.get("id") is not None}
+
+
+def check_section_end(chk, v, parser_name):
+    """In the text-section parser, every return of a (non-NULL) property object must be guarded by an equality test of the
+    whole current line with a string built from the title of the BEGIN line that opened the section: otherwise a
+    truncated or foreign END line closes the section silently."""
+    vn = v.name
+    f = v.fn(parser_name)
+    body = f.d.get("body")
+    # the current line: the variable handed to getLine; the title: the argument of setTypeTitle
+    line_ids, title_ids = set(), set()
+    for n in walk(body):
+        if n.get("k") == "mcall" and n.get("method") == "getLine":
+            line_ids |= _refs({"a": n.get("args")})
+        if n.get("k") == "mcall" and n.get("method") == "setTypeTitle":
+            title_ids |= _refs({"a": n.get("args")})
+    if not line_ids or not title_ids:
+        chk.broken("%s: getLine / setTypeTitle calls not found" % parser_name)
+    # variables whose value is built from the title
+    derived = set(title_ids)
+    for _ in range(3):
+        for n in walk(body):
+            if n.get("k") in ("assign", "opcall") and n.get("op") in ("=",):
+                args = n.get("args") or [n.get("a"), n.get("b")]
+                if args and isinstance(args[0], dict) and args[0].get("k") == "ref" and any(_refs(a) & derived for a in args[1:] if isinstance(a, dict)):
+                    derived.add(args[0].get("id"))
+            if n.get("k") == "var" and n.get("init") is not None and _refs(n["init"]) & derived:
+                derived.add(n.get("id"))
+
+    def returns_with_conditions(n, conds, out):
+        if isinstance(n, list):
+            for y in n:
+                returns_with_conditions(y, conds, out)
+            return
+        if not isinstance(n, dict):
+            return
+        k = n.get("k")
+        if k == "if":
+            returns_with_conditions(n.get("then"), conds + [(n.get("c"), True)], out)
+            returns_with_conditions(n.get("else"), conds + [(n.get("c"), False)], out)
+            return
+        if k == "return":
+            out.append((n, conds))
+            return
+        for key_, y in n.items():
+            if key_ in ("c",):
+                continue
+            if isinstance(y, (dict, list)):
+                returns_with_conditions(y, conds, out)
+    rets = []
+    returns_with_conditions(body, [], rets)
+    good = [r for r in rets if r[0].get("a") is not None and not (r[0]["a"].get("k") in ("null", "int") or r[0]["a"].get("cv") in ("0", 0)
+                                                                   or (r[0]["a"].get("k") == "cast" and "null" in str(r[0]["a"].get("ck", "")).lower()))]
+    good = [r for r in good if r[0]["a"].get("k") == "ref" or r[0]["a"].get("k") == "cast" and _refs(r[0]["a"])]
+    if not good:
+        chk.broken("%s: no return of a property object found" % parser_name)
+    problems = []
+    for r, conds in good:
+        ok = False
+        for c, pol in conds:
+            if pol and isinstance(c, dict) and c.get("k") == "opcall" and c.get("op") == "==" and len(c.get("args") or []) == 2:
+                a, b = c["args"]
+                ia, ib = _refs(a), _refs(b)
+                if (ia & line_ids and ib & derived and a.get("k") == "ref" and b.get("k") == "ref") or \
+                        (ib & line_ids and ia & derived and a.get("k") == "ref" and b.get("k") == "ref"):
+                    ok = True
+            # line.compare(E) == 0, !line.compare(E), and the else branch of line.compare(E) / line != E
+            cmp_call, eq_pol = None, None
+            if isinstance(c, dict):
+                if c.get("k") == "un" and c.get("op") == "!" and isinstance(c.get("a"), dict) and c["a"].get("k") == "mcall":
+                    cmp_call, eq_pol = c["a"], True
+                elif c.get("k") == "bin" and c.get("op") in ("==", "!=") and any(isinstance(c.get(s_), dict) and c[s_].get("k") == "mcall" for s_ in ("a", "b")):
+                    mc = c["a"] if c["a"].get("k") == "mcall" else c["b"]
+                    other = c["b"] if mc is c["a"] else c["a"]
+                    if str(other.get("cv", other.get("v"))) == "0":
+                        cmp_call, eq_pol = mc, (c["op"] == "==")
+                elif c.get("k") == "mcall":
+                    cmp_call, eq_pol = c, False
+                elif c.get("k") == "opcall" and c.get("op") == "!=" and len(c.get("args") or []) == 2:
+                    a, b = c["args"]
+                    if not pol and a.get("k") == "ref" and b.get("k") == "ref" and ((_refs(a) & line_ids and _refs(b) & derived) or (_refs(b) & line_ids and _refs(a) & derived)):
+                        ok = True
+            if cmp_call is not None and cmp_call.get("method") == "compare" and len(cmp_call.get("args") or []) == 1 and pol == eq_pol:
+                objn = cmp_call.get("obj") or cmp_call.get("this") or cmp_call.get("a")
+                arg = cmp_call["args"][0]
+                if isinstance(objn, dict) and ((_refs(objn) & line_ids and _refs(arg) & derived) or (_refs(objn) & derived and _refs(arg) & line_ids)):
+                    ok = True
+        if not ok:
+            problems.append("the section object is returned at line %s without comparing the whole line with the END line of the title that opened "
+                            "the section (conditions on the path: %s): a truncated END line or the END line of another object type is accepted" % (
+                                r["l"], [("" if pol else "!") + (c.get("callee") or c.get("method") or c.get("op") or c.get("k", "?")) for c, pol in conds][-3:]))
+    chk.require(not problems, "R7", "%s closes a section only on the exact END line of its own title" % parser_name, where=f.where,
+                ok="%d return(s) of the section object, each under `line == \"-----END \" + title + \"-----\"`" % len(good),
+                bad="; ".join(problems)[:600], variant=vn)
+    chk.vcount(vn, "R7.section_parsers")
